@@ -110,6 +110,10 @@ func ruleCallers(filter func(callee string) bool) ruleFn {
 						okc = true
 					}
 				}
+				if !okc {
+					// a helper all of whose callers are allowed callers (helper extraction)
+					okc = helperOfAllowed(r, c, allowed, prefixes, 0)
+				}
 				if okc {
 					found++
 					r.OK("R4a", c, "calls "+callee, r.P.pos(site.Pos()), "listed caller: "+spec.why)
@@ -122,6 +126,32 @@ func ruleCallers(filter func(callee string) bool) ruleFn {
 			}
 		}
 	}
+}
+
+// helperOfAllowed: every module caller of function name is an allowed caller, or again such a helper.
+func helperOfAllowed(r *Run, name string, allowed map[string]bool, prefixes []string, depth int) bool {
+	fn := r.P.Fn(name)
+	if fn == nil || depth > 3 {
+		return false
+	}
+	n := 0
+	for _, e := range r.P.CG.In[fn] {
+		if e.Kind == "param" {
+			continue
+		}
+		n++
+		c := fnName(e.Caller)
+		ok := allowed[c]
+		for _, p := range prefixes {
+			if strings.HasPrefix(c, p) {
+				ok = true
+			}
+		}
+		if !ok && !helperOfAllowed(r, c, allowed, prefixes, depth+1) {
+			return false
+		}
+	}
+	return n > 0 && !isExported(fn)
 }
 
 func ruleGoSites(r *Run) {
